@@ -22,7 +22,7 @@ from mc.ref import mtypes as T
 ID = 'C17'
 LEVEL = 'exploration'
 RULE = ('every reference-well-typed program PUSH;i1..ik (k<=3) over PUSH/PAIR n/UNPAIR n/GET n/UPDATE n/CAR/CDR/DUP/SWAP/COMPARE/'
-        'PACK/UNPACK/LEFT/RIGHT/NONE/NIL/EMPTY_MAP/LAMBDA/CAST/SOME/MAP/ITER/EXEC/APPLY/CONS x every valid annotation assignment (each '
+        'PACK/UNPACK/LEFT/RIGHT/NONE/NIL/EMPTY_MAP/LAMBDA/CAST/SOME/MAP/ITER/EXEC/APPLY/CONS/SLICE/EDIV x every valid annotation assignment (each '
         'type node one of none, %f, :t, %f :t; %f only on components of pair/or, as Tezos requires; in assignments of two or more nodes '
         'the later node also under the OTHER names %g, :u, %g :u, so that two types meeting in one type check - list element and consed '
         'item, lambda parameter and argument, the two operands of COMPARE, old and new component of UPDATE n - carry the same or '
@@ -32,7 +32,7 @@ RULE = ('every reference-well-typed program PUSH;i1..ik (k<=3) over PUSH/PAIR n/
         'traversal could look at); outcome classes are per last instruction of the program')
 BOUND = {
     'quick': 'initial PUSH of: nat, right combs of 2-4 nat leaves, left-nested pair, pair of pairs, option/or/list of a 3-comb, packed 3- and '
-             '4-combs; type arguments: 3-comb for LEFT/RIGHT/NONE/NIL/EMPTY_MAP/LAMBDA, 3-/4-comb for UNPACK, the current top type for CAST; '
+             '4-combs, (offset, length, string) triples that SLICE answers None / Some for (thorough: also bytes, and a zero divisor for EDIV); type arguments: 3-comb for LEFT/RIGHT/NONE/NIL/EMPTY_MAP/LAMBDA, 3-/4-comb for UNPACK, the current top type for CAST; '
              'all programs of <=3 instructions after the PUSH with at most one type-carrying instruction among them; programs of <=2 '
              'instructions: every assignment with <=2 annotated nodes (every kind combination, second node under the same and under different '
              'names); programs of 3: every single-node assignment',
@@ -49,7 +49,7 @@ ASSUMPTIONS = ['field annotations are only legal on the components of pair/or ty
 LEVEL_TEXT = ('exploration: exhaustive over a small instruction family and all annotation placements up to the bound; differential on '
               'the implementation itself, so it decides "annotations are ignored" for these instructions, not their absolute correctness')
 
-NAT, BYTES = ('nat',), ('bytes',)
+NAT, BYTES, STRING = ('nat',), ('bytes',), ('string',)
 KINDS = {'f': ['%f'], 't': [':t'], 'ft': ['%f', ':t'],
          # the same three kinds under OTHER names: used on the second node of a two-node assignment (and alternately in the
          # thorough subsets), so that two types that meet in one type check carry different names of the same kind (renaming)
@@ -191,6 +191,11 @@ def candidates(st, tier):
             out += [tmpl('MAP', tail=[[{'prim': 'CAR'}]]), tmpl('MAP', tail=[[{'prim': 'CDR'}]])]
         if top[0] == 'list':
             out.append(tmpl('ITER', tail=[[{'prim': 'DROP'}]]))
+    # instructions that answer None / Some of a type taken from a (possibly annotated) pair component
+    if n >= 3 and st[0] == NAT and st[1] == NAT and st[2] in (STRING, BYTES):
+        out.append(tmpl('SLICE'))
+    if n >= 2 and st[0] == NAT and st[1] == NAT:
+        out.append(tmpl('EDIV'))
     if n >= 2:
         if st[1][0] == 'lambda':
             out += [tmpl('EXEC'), tmpl('APPLY')]
@@ -223,8 +228,13 @@ def inits(tier):
         ('packed-comb4', BYTES, T.pack(c4, comb_val(4))),
         ('lambda-pair', ('lambda', ('pair', NAT, NAT), NAT), ('lam', json.dumps([{'prim': 'CAR'}]))),
         ('list-pair', ('list', ('pair', NAT, NAT)), ((1, 2), (3, 4))),
+        # offset, length, text: UNPAIR 3 ; SLICE answers None (out of bounds) / Some; UNPAIR 3 ; EDIV divides by zero / not
+        ('slice-oob', ('pair', NAT, ('pair', NAT, STRING)), (1, (5, 'abc'))),
+        ('slice-in', ('pair', NAT, ('pair', NAT, STRING)), (0, (1, 'abc'))),
     ]
     if tier == 'thorough':
+        out += [('slice-bytes-oob', ('pair', NAT, ('pair', NAT, BYTES)), (1, (0, b'\x01'))),
+                ('ediv-zero', ('pair', NAT, ('pair', NAT, STRING)), (7, (0, '')))]
         out += [('comb5', comb(5), comb_val(5)), ('packed-comb5', BYTES, T.pack(comb(5), comb_val(5))),
                 ('option-comb4', ('option', c4), ('Some', comb_val(4)))]
     return out
